@@ -17,6 +17,7 @@ mod eng_copy;
 mod eng_mutants;
 mod eng_sfloat;
 mod eng_devio;
+mod eng_floattext;
 
 #[global_allocator]
 static ALLOC: eng_mutants::Counting = eng_mutants::Counting;
@@ -63,6 +64,7 @@ fn exec_line(engine: &str, line: &str) -> String {
         "mutants" => eng_mutants::exec(line),
         "sfloat" => eng_sfloat::exec(line),
         "devio" => eng_devio::exec(line),
+        "floattext" => eng_floattext::exec(line),
         "devdbg" => eng_device::debug_read_fault(line),
         _ => "BADENGINE".into(),
     }
@@ -100,6 +102,7 @@ fn main() {
                 "mutants" => eng_mutants::generate(&mut sink, seed, thorough),
                 "sfloat" => eng_sfloat::generate(&mut sink, seed, thorough),
                 "devio" => eng_devio::generate(&mut sink, seed, thorough),
+                "floattext" => eng_floattext::generate(&mut sink, seed, thorough),
                 _ => {
                     eprintln!("unknown engine {engine}");
                     std::process::exit(2);
